@@ -490,6 +490,15 @@ func genBer(o genOpts, w *bufio.Writer) {
 		params := r.pickStr("", "", "tagNum:0", "tagNum:30", "tagNum:31", "tagNum:128,explicit", "tagNum:5,explicit", "utf8", "ia5", "tagNum:2097151")
 		emit(t, params, v)
 	}
+	// octet strings and character strings at the length-octet boundaries
+	for _, n := range []int{0, 1, 126, 127, 128, 129, 254, 255, 256, 257, 65534, 65535, 65536} {
+		v := reflect.New(asn.OctetStringType).Elem()
+		v.SetBytes(make([]byte, n))
+		emit(v.Type(), r.pickStr("", "tagNum:7", "tagNum:31,explicit"), v)
+		sv := reflect.New(asn.UTF8StringType).Elem()
+		sv.SetString(strings.Repeat("a", n))
+		emit(sv.Type(), "", sv)
+	}
 	// all integers with boundary magnitudes
 	for _, x := range intPool {
 		v := reflect.New(reflect.TypeOf(int64(0))).Elem()
@@ -542,7 +551,33 @@ func genBer(o genOpts, w *bufio.Writer) {
 		if err != nil || len(b) == 0 {
 			b = r.bytes(1 + r.intn(6))
 		}
-		switch r.intn(7) {
+		switch r.intn(8) {
+		case 7:
+			// a member's declared length bumped by 1 or 2 while the enclosing lengths stay as they are:
+			// walk into the first constructed levels and patch the length octet of the last child found
+			off := 0
+			for depth := 0; depth < 1+r.intn(3); depth++ {
+				if off+2 > len(b) || b[off]&0x20 == 0 || b[off]&0x1f == 0x1f || b[off+1] >= 0x80 {
+					break
+				}
+				end := off + 2 + int(b[off+1])
+				if end > len(b) {
+					break
+				}
+				// children of this element
+				c, last := off+2, -1
+				for c+2 <= end && b[c]&0x1f != 0x1f && b[c+1] < 0x80 {
+					last = c
+					c += 2 + int(b[c+1])
+				}
+				if last < 0 {
+					break
+				}
+				off = last
+			}
+			if off > 0 && off+1 < len(b) && b[off+1] < 0x7e {
+				b[off+1] += byte(1 + r.intn(2))
+			}
 		case 6:
 			// the outer length rewritten in (non-minimal) long form with k length octets, k = 1..9
 			if len(b) >= 2 && b[0]&0x1f != 0x1f && b[1] < 0x80 {
